@@ -92,8 +92,8 @@ func opValue(tag, i int, op memOp) expr.Expr {
 		return mk(op.W + 1)
 	case "byteval":
 		return mk(1)
-	case "basecopy":
-		return mk(op.W) // replaced by the caller when a base layer exists
+	case "basecopy", "samecopy":
+		return mk(op.W) // replaced by the caller
 	case "sym":
 		return expr.NewRegLoad(expr.Key(fmt.Sprintf("s%d", (tag+i)%10)), expr.Width(op.W))
 	case "symwide":
@@ -347,6 +347,20 @@ func memRun(c memCase) (*eng.Fail, int) {
 	var rets []returned
 	for i, op := range c.Ops {
 		v := opValue(0, i, op)
+		if op.Kind == "samecopy" {
+			// a constant equal to what the memory currently holds there (a store that changes nothing)
+			bs := make([]byte, op.W)
+			env := memEnv(memVals[0])
+			for j := range bs {
+				bs[j] = byte(0x40 + i + j)
+				if cl, ok := mdl[op.Addr+j]; ok {
+					if _, isC := cl.val.(expr.Const); isC {
+						bs[j] = cl.byteAt(env)
+					}
+				}
+			}
+			v = expr.NewConst(bs, expr.Width(op.W))
+		}
 		if op.Kind == "basecopy" {
 			// a constant equal to what the base layer holds there (restoring the original content)
 			bs := make([]byte, op.W)
@@ -479,11 +493,12 @@ func memDo(r *eng.Run, c memCase) {
 func init() {
 	checks["C14"] = eng.Check{
 		Hist: true,
-		Rule: "Sparse memory: every history (no state merging) of <=2 stores over the full alphabet (addr 0..5 x width 1..4 x value kinds {exact constant, symbolic register, value narrower than the write, value wider than the write, wide symbolic}) and of 3 stores (quick: addr 0..4, widths 1..4, kinds const/sym; thorough: full alphabet; thorough also 4 stores over addr 0..3, widths 1..3, const/sym), on a fresh real Sparse each; after each history every Load(a,w), Missing(a,w) for a in 0..8, w in 1..4 and Blocks() compared with a byte map (values under 3 valuations); digests of all values handed in / returned mid-history re-checked at the end. Repeated with all addresses shifted to just below 2^64. Non-trivial = history of >=2 stores.",
+		Rule: "Sparse memory: every history (no state merging) of <=2 stores over the full alphabet (addr 0..5 x width 1..4 x value kinds {exact constant, symbolic register, value narrower than the write, value wider than the write, wide symbolic}) and of 3 stores (quick: addr 0..4, widths 1..4, kinds const/sym; thorough: full alphabet; thorough also 4 stores over addr 0..3, widths 1..3, const/sym; plus histories of 2..3 stores ending with a store of exactly the bytes the memory already holds there), on a fresh real Sparse each; after each history every Load(a,w), Missing(a,w) for a in 0..8, w in 1..4 and Blocks() compared with a byte map (values under 3 valuations); digests of all values handed in / returned mid-history re-checked at the end. Repeated with all addresses shifted to just below 2^64. Non-trivial = history of >=2 stores.",
 		Assumptions: []string{"address ranges do not wrap around 2^64", "write widths 1..4 (wider writes are covered by a few hand-picked wide cases only)"},
 		Run: func(r *eng.Run) {
 			full := memAlpha(seq(0, 5), seq(1, 4), []string{"const", "sym", "narrow", "wide", "symwide"})
 			small := memAlpha(seq(0, 4), seq(1, 4), []string{"const", "sym"})
+			same := memAlpha(seq(0, 4), seq(1, 4), []string{"const", "sym", "samecopy"})
 			tiny := memAlpha(seq(0, 3), seq(1, 3), []string{"const", "sym"})
 			r.Note("alphabet full=%d small=%d tiny=%d", len(full), len(small), len(tiny))
 			for _, top := range []bool{false, true} {
@@ -491,6 +506,12 @@ func init() {
 				memDo(r, memCase{Mem: "sparse", Top: top, MaxA: 8, MaxW: 4})
 				histories(r, full, 2, func(ops []memOp) {
 					memDo(r, memCase{Mem: "sparse", Ops: append([]memOp{}, ops...), Top: top, MaxA: 8, MaxW: 4})
+				})
+				// stores of the value the memory already holds (no-op stores), last in the history
+				histories(r, same, 3, func(ops []memOp) {
+					if n := len(ops); n >= 2 && ops[n-1].Kind == "samecopy" && ops[0].Kind != "samecopy" && (n == 2 || ops[1].Kind != "samecopy") {
+						memDo(r, memCase{Mem: "sparse", Ops: append([]memOp{}, ops...), Top: top, MaxA: 8, MaxW: 4})
+					}
 				})
 				if r.Quick() {
 					histories(r, small, 3, func(ops []memOp) {
